@@ -58,8 +58,9 @@ PROPS = {
     },
     "C12": {
         
-        "lean_props": ["ZarrsModel.Props.C12", "ZarrsModel.Props.C12Fixed", "ZarrsModel.Props.C12Deflate"],
+        "lean_props": ["ZarrsModel.Props.C12", "ZarrsModel.Props.C12Fixed", "ZarrsModel.Props.C12Deflate", "ZarrsModel.Props.C12Gzip"],
         "harness": "c12",
+        "harness_also": ["c12n"],
         "driver_gen_also": True,
         "rule": "direction w (zarrs writes, the specification-level reader reads): V3 arrays of rank 0..3 with ragged edges, 4 data types, non-zero fill values, default/v2 key encodings with either separator, "
                 "chains of 0..2 transposes, `bytes` in either byte order or `sharding_indexed` (inner transposes/bytes/gzip/crc32c, either index location, either index byte order, with/without index checksum), "
@@ -222,7 +223,7 @@ PROPS = {
         "assumptions": ["fixed-size data types (variable-size outputs are assembled by merge_chunks_vlen, covered by C01/C06 value comparison)"],
     },
     "C16": {
-        "lean_props": ["ZarrsModel.Props.C16", "ZarrsModel.Props.C16Shard"],
+        "lean_props": ["ZarrsModel.Props.C16", "ZarrsModel.Props.C16Shard", "ZarrsModel.Props.C16Conc"],
         "harness": "c16",
         "rule": "(a) C01-style histories at concurrency targets {1,2,3,8,16} x chunk_concurrent_minimum {1,4}, every outcome compared with the sequential model; (b) 2-3 client threads issuing "
                 "store/erase/retrieve calls on chunk-disjoint bands of one array through a second handle whose store is wrapped by a turn-taking gate that serialises the store-level operations "
@@ -250,7 +251,7 @@ PROPS = {
         "assumptions": ["lossy codecs (zfp, fixedscaleoffset, bitround) are not exercised here"],
     },
     "C15": {
-        "lean_props": ["ZarrsModel.Props.C15"],
+        "lean_props": ["ZarrsModel.Props.C15", "ZarrsModel.Props.C15Entry"],
         "harness": "c15",
         "rule": "five configuration families (checksum outermost; checksum inside a compressor; sharding outermost with plain index; with crc32c index; random chains) x after a write history, for 2-3 chunks: "
                 "EVERY byte position of the stored value (<=256 bytes, else first/last 64 + 128 random) x masks {01,80,ff}; 20-60 multi-byte corruptions; EVERY truncation length; extensions by 1..17 bytes; "
@@ -266,9 +267,9 @@ PROPS = {
         "timeout": 3000,
     },
     "C02": {
-        "lean_props": ["ZarrsModel.Props.C02", "ZarrsModel.Props.C02Shard", "ZarrsModel.Props.C01Vlen"],
+        "lean_props": ["ZarrsModel.Props.C02", "ZarrsModel.Props.C02Shard", "ZarrsModel.Props.C01Vlen", "ZarrsModel.Props.C02PackBits"],
         "harness": "c02",
-        "harness_also": ["c02s", "c02v"],
+        "harness_also": ["c02s", "c02v", "c02p"],
         "rule": "random configurations (half sharded, nested sharding, both index locations, checksums/compressors before and after sharding, transposes, squeeze, vlen types, non-cubic chunks and size-1 "
                 "dims) with chunks written fully / partly fill / left absent; for up to 3 chunks EVERY sub-box (exhaustive when <=150 boxes, else 60 sampled) is read through retrieve_chunk_subset or the "
                 "chunk partial decoder, plus lists of 2-4 regions (sometimes with an empty region) and chunk-crossing retrieve_array_subset; each outcome is compared with the model's full-decode-then-slice "
@@ -280,7 +281,7 @@ PROPS = {
         "assumptions": ["regions in bounds of the chunk"],
     },
     "C20": {
-        "lean_props": ["ZarrsModel.Props.C20", "ZarrsModel.Props.C20Ops"],
+        "lean_props": ["ZarrsModel.Props.C20", "ZarrsModel.Props.C20Ops", "ZarrsModel.Props.C20List"],
         "harness": "c20",
         "rule": "C01 configurations; after a short history, for each of 2-5 write operations (all six kinds) and reads: the operation is run through a fault-injecting store wrapper at concurrency 1; first "
                 "fault-free to count its N store operations and record the intended final state, then for EVERY k <= N with the k-th store operation failing: the result must be an error (never ok, never "
